@@ -1,0 +1,109 @@
+# -*- coding: utf-8 -*-
+"""Optional execution tracing for external conformance checking.
+
+Inert unless the environment variable SIGPY_VERIF_TRACE names a file; then one
+JSON object per line is appended for Alg.update / Alg.done / App.run /
+Linop.apply / Prox.__call__.  Events carry a per-process sequence number, never
+wall-clock time; array contents are summarised by a 30-bit CRC.
+"""
+import json
+import os
+import zlib
+
+_PATH = os.environ.get("SIGPY_VERIF_TRACE")
+ON = bool(_PATH)
+_seq = 0
+_depth = {"linop": 0, "prox": 0}
+_uids = {}
+_fh = None
+
+
+def _uid(obj):
+    k = id(obj)
+    u = _uids.get(k)
+    if u is None or u[1] is not obj:
+        u = (len(_uids) + 1, obj)  # keeps obj alive: ids are never reused while tracing
+        _uids[k] = u
+    return u[0]
+
+
+def _crc(a):
+    try:
+        import numpy as np
+
+        if isinstance(a, np.ndarray):
+            return zlib.crc32(np.ascontiguousarray(a).tobytes()) & 0x3FFFFFFF
+    except Exception:
+        pass
+    return 0
+
+
+def _emit(rec):
+    global _seq, _fh
+    _seq += 1
+    rec["seq"] = _seq
+    rec["pid"] = os.getpid()
+    if _fh is None:
+        _fh = open(_PATH, "a")
+    _fh.write(json.dumps(rec) + "\n")
+    _fh.flush()
+
+
+def _int(v, default=-1):
+    try:
+        return int(v)
+    except Exception:
+        return default
+
+
+def alg_update_begin(alg):
+    _emit({"ev": "alg.update.begin", "uid": _uid(alg), "cls": type(alg).__name__,
+           "iter": _int(alg.iter), "max_iter": _int(alg.max_iter)})
+
+
+def alg_update_end(alg):
+    _emit({"ev": "alg.update.end", "uid": _uid(alg), "cls": type(alg).__name__,
+           "iter": _int(alg.iter), "max_iter": _int(alg.max_iter)})
+
+
+def alg_done(alg, value):
+    _emit({"ev": "alg.done", "uid": _uid(alg), "cls": type(alg).__name__,
+           "iter": _int(alg.iter), "max_iter": _int(alg.max_iter), "done": bool(value)})
+    return value
+
+
+def app_run_begin(app):
+    _emit({"ev": "app.run.begin", "uid": _uid(app), "cls": type(app).__name__,
+           "alg": _uid(app.alg), "alg_cls": type(app.alg).__name__})
+
+
+def app_run_end(app, output):
+    _emit({"ev": "app.run.end", "uid": _uid(app), "cls": type(app).__name__,
+           "alg": _uid(app.alg), "iter": _int(app.alg.iter), "max_iter": _int(app.alg.max_iter),
+           "out_is_x": bool(hasattr(app, "x") and output is getattr(app, "x", None))})
+    return output
+
+
+def call_begin(kind, obj, input):
+    _depth[kind] += 1
+    tok = (_crc(input), _depth[kind])
+    return tok
+
+
+def call_end(kind, obj, tok, input, output):
+    d = _depth[kind]
+    _depth[kind] = max(0, d - 1)
+    rec = {"ev": kind + ".call", "uid": _uid(obj), "cls": type(obj).__name__, "depth": tok[1],
+           "in_crc0": tok[0], "in_crc1": _crc(input),
+           "in_shape": [int(s) for s in getattr(input, "shape", ())],
+           "out_shape": [int(s) for s in getattr(output, "shape", ())]}
+    if kind == "linop":
+        rec["ishape"] = [int(s) for s in obj.ishape]
+        rec["oshape"] = [int(s) for s in obj.oshape]
+    else:
+        rec["shape"] = [int(s) for s in obj.shape]
+    _emit(rec)
+
+
+def call_abort(kind):
+    _depth[kind] = max(0, _depth[kind] - 1)
